@@ -77,6 +77,7 @@ pub fn programs(family: &str, _tier: Tier) -> Vec<Prog> {
         "map2" => vec![Fam::Map2],
         "bind" => vec![Fam::BindExisting, Fam::BindFresh, Fam::OuterSwitch],
         "switch" => vec![Fam::OuterSwitch],
+        "leak" => vec![Fam::Leak],
         "ignore" => vec![Fam::IgnoreConst, Fam::IgnoreOuter],
         "shared" => vec![Fam::SharedOuter, Fam::SharedConst, Fam::SharedHalfPinned],
         "shared-pinned" => vec![Fam::SharedHalfPinned],
@@ -91,6 +92,9 @@ pub fn programs(family: &str, _tier: Tier) -> Vec<Prog> {
                     continue;
                 }
                 for cut in [Cut::None, Cut::Never, Cut::FnEq] {
+                    if fam == Fam::Leak && cut != Cut::None {
+                        continue; // one cutoff variant is enough for this family (cost)
+                    }
                     out.push(Prog { op, cut, map, fam, k });
                 }
             }
